@@ -98,6 +98,8 @@ def snapshot_selftest(rng):
         'children reversed': lambda b: b[0][0].tree.children.reverse(),
         'children list replaced by an equal list': lambda b: setattr(b[0][0].tree, 'children', list(b[0][0].tree.children)),
         'category replaced by an equal category': lambda b: setattr(b[0][0].tree, 'cat', Category.parse(str(b[0][0].tree.cat))),
+        'category attribute set': lambda b: object.__setattr__(b[0][0].tree.cat, '_printed', True),
+        'category field replaced': lambda b: object.__setattr__(b[1][0].tree.cat, 'base', 'N'),
         'n-best list reordered': lambda b: b[0].reverse(),
         'sentence removed': lambda b: b.pop(),
         'scored tree replaced by an equal tuple': lambda b: b[1].__setitem__(0, rc.ScoredTree(b[1][0].tree, b[1][0].score)),
@@ -118,7 +120,7 @@ def run(ctx):
     ctx.build(['P_C18.vo'], gens=('tables', 'render'))
     ctx.theorems('P_C18')
     missed = snapshot_selftest(rng)
-    ctx.obligation('observation: the deep snapshot sees 15 kinds of edits of result objects (self-test)', not missed, f'not seen: {missed}')
+    ctx.obligation('observation: the deep snapshot sees 17 kinds of edits of result objects (self-test)', not missed, f'not seen: {missed}')
     formats, cli = rc.cli_formats()
     try:
         modelled = rc.modelled_formats()
